@@ -50,6 +50,8 @@ func FromStream(stream *glyphdata.Stream) (*type1.Font, error) {
 	}()
 
 	t1Font, parseErr = type1.Read(r)
+	// release the producer if the parser stopped before the end of the data
+	r.CloseWithError(io.ErrClosedPipe)
 	if parseErr != nil {
 		return nil, fmt.Errorf("parsing Type1 font: %w", parseErr)
 	}
